@@ -161,7 +161,9 @@ func vxUniverseAssignable() [][]types.Type {
 
 // vxTwoRuns plays the same operation sequence (explicit registrations and helper lookups) on two fresh
 // tables; every `range` over a Go map inside typesMap gets its own arbitrary order in each run.
-func vxTwoRuns(k int, uni [][]types.Type) {
+// pattern fixes the kind of each operation ('g' lookup, 's' registration, '?' solver-chosen): the K3 harness over
+// the assignable universe is split into its 8 patterns so that each query stays small and they run in parallel.
+func vxTwoRuns(k int, uni [][]types.Type, pattern string) {
 	names := vxNameList()
 	autoname := vx.Nondet[bool]("autoname")
 	dedup := vx.Nondet[bool]("dedup")
@@ -169,7 +171,10 @@ func vxTwoRuns(k int, uni [][]types.Type) {
 	tm2 := newTypesMap(vxNoQual, "deriveEqual", map[string]struct{}{}, autoname, dedup).(*typesMap)
 	same := true
 	for i := 0; i < k; i++ {
-		isGet := vx.Nondet[bool]("isGet")
+		isGet := pattern[i] == 'g'
+		if pattern[i] == '?' {
+			isGet = vx.Nondet[bool]("isGet")
+		}
 		n := vx.Nondet[uint8]("name")
 		t := vx.Nondet[uint8]("typ")
 		vx.Assume(n < 4 && t < 4)
@@ -196,10 +201,17 @@ func vxTwoRuns(k int, uni [][]types.Type) {
 	vx.Assert(ok, "the work list of functions to generate is the same in both runs")
 }
 
-func VX_C08_names_K2()          { vxTwoRuns(2, vxUniverse()) }
-func VX_C08_names_K3()          { vxTwoRuns(3, vxUniverse()) }
-func VX_C08_assignable_K2()     { vxTwoRuns(2, vxUniverseAssignable()) }
-func VX_C08_assignable_K3()     { vxTwoRuns(3, vxUniverseAssignable()) }
+func VX_C08_names_K2()          { vxTwoRuns(2, vxUniverse(), "??") }
+func VX_C08_names_K3()          { vxTwoRuns(3, vxUniverse(), "???") }
+func VX_C08_assignable_K2()     { vxTwoRuns(2, vxUniverseAssignable(), "??") }
+func VX_C08_assignable_K3_sss() { vxTwoRuns(3, vxUniverseAssignable(), "sss") }
+func VX_C08_assignable_K3_ssg() { vxTwoRuns(3, vxUniverseAssignable(), "ssg") }
+func VX_C08_assignable_K3_sgs() { vxTwoRuns(3, vxUniverseAssignable(), "sgs") }
+func VX_C08_assignable_K3_sgg() { vxTwoRuns(3, vxUniverseAssignable(), "sgg") }
+func VX_C08_assignable_K3_gss() { vxTwoRuns(3, vxUniverseAssignable(), "gss") }
+func VX_C08_assignable_K3_gsg() { vxTwoRuns(3, vxUniverseAssignable(), "gsg") }
+func VX_C08_assignable_K3_ggs() { vxTwoRuns(3, vxUniverseAssignable(), "ggs") }
+func VX_C08_assignable_K3_ggg() { vxTwoRuns(3, vxUniverseAssignable(), "ggg") }
 
 // ---------- C01: name-table lemma ----------
 
